@@ -60,12 +60,24 @@ def data(n, seed):
             return X
 
 
+def _outcome(sc, arr, expect):
+    try:
+        return "value", sc.evaluate(arr)
+    except ValueError:
+        return "ValueError", None
+    except RuntimeError:  # documented: non-PD sample covariance (C01); not a cut problem
+        return ("value" if expect else "RuntimeError"), None
+    except Exception as e:
+        return type(e).__name__, None
+
+
 def run_box(args):
-    """All tuples of the box for one (scorer index, n). Returns (evaluations, accepted, failures)."""
+    """All tuples of the box for one (scorer index, n): alone, next to admissible rows, and as an
+    unsigned array.  Returns (evaluations, accepted, failures)."""
     import warnings
 
     warnings.filterwarnings("ignore")
-    si, n, margin, accepted, seed = args
+    si, n, margin, accepted, filler, seed = args
     name, mk, kind, ms = scorers()[si]
     X = data(n, seed)
     sc = mk().fit(X)
@@ -73,37 +85,40 @@ def run_box(args):
     fails = []
     n_eval = 0
     for cut in itertools.product(range(-margin, n + margin + 1), repeat=kind):
-        n_eval += 1
         expect = cut in acc
-        try:
-            val = sc.evaluate(np.array([cut]))
-            outcome = "value"
-        except ValueError:
-            outcome = "ValueError"
-        except RuntimeError as e:  # documented: non-PD sample covariance (C01); not a cut problem
-            outcome = "value" if expect else "RuntimeError"
-            val = None
-        except Exception as e:
-            outcome = type(e).__name__
-        if expect and outcome != "value":
-            fails.append(("valid_cut_rejected", {"scorer": name, "n": n, "cut": list(cut), "outcome": outcome}))
-            continue
-        if not expect and outcome != "ValueError":
-            fails.append(("invalid_cut_not_rejected", {"scorer": name, "n": n, "cut": list(cut), "outcome": outcome,
-                                                       "value": None if outcome != "value" or val is None else val.tolist()}))
-            continue
-        if expect and val is not None:
-            # the same rows, scored by a fresh scorer that has seen nothing else
-            s, e = cut[0], cut[-1]
-            try:
-                ref = mk().fit(X[s:e].copy()).evaluate(np.array([[c - s for c in cut]]))
-            except RuntimeError:
+        variants = [("only", np.array([cut]), 0)]
+        if filler:
+            variants += [("first", np.array([cut, filler]), 0), ("last", np.array([filler, cut]), 1),
+                         ("middle", np.array([filler, cut, filler]), 1)]
+        if min(cut) >= 0:
+            variants.append(("only-uint64", np.array([cut], dtype=np.uint64), 0))
+            variants.append(("only-int32", np.array([cut], dtype=np.int32), 0))
+        alone = None
+        for pos, arr, row in variants:
+            n_eval += 1
+            outcome, val = _outcome(sc, arr, expect)
+            obs = {"scorer": name, "n": n, "cut": list(cut), "pos": pos, "outcome": outcome}
+            if expect and outcome != "value":
+                fails.append(("valid_cut_rejected", obs))
                 continue
-            if val.shape != ref.shape or not np.all(np.isfinite(val)) or \
-                    not np.allclose(val, ref, rtol=1e-9, atol=1e-9):
-                fails.append(("accepted_cut_scored_wrongly", {"scorer": name, "n": n, "cut": list(cut),
-                                                              "value": val.tolist(), "rows_value": ref.tolist()}))
-    # batch: all accepted cuts at once == one at a time
+            if not expect and outcome != "ValueError":
+                obs["value"] = None if val is None else val.tolist()
+                fails.append(("invalid_cut_not_rejected", obs))
+                continue
+            if expect and val is not None:
+                if pos == "only":
+                    alone = val
+                    # the same rows, scored by a fresh scorer that has seen nothing else
+                    s, e = cut[0], cut[-1]
+                    try:
+                        ref = mk().fit(X[s:e].copy()).evaluate(np.array([[c - s for c in cut]]))
+                    except RuntimeError:
+                        continue
+                    if val.shape != ref.shape or not np.all(np.isfinite(val)) or \
+                            not np.allclose(val, ref, rtol=1e-9, atol=1e-9):
+                        fails.append(("accepted_cut_scored_wrongly", {**obs, "value": val.tolist(), "rows_value": ref.tolist()}))
+                elif alone is not None and not np.allclose(val[row], alone[0], rtol=1e-9, atol=1e-9):
+                    fails.append(("row_value_depends_on_batch", {**obs, "value": val[row].tolist(), "alone": alone[0].tolist()}))
     return n_eval, len(acc), fails
 
 
@@ -158,19 +173,19 @@ def run(tier: str) -> int:
     chk.assumptions = ["TLC/SANY and the Json module",
                        "data in general position so that the non-PD error (C01) does not interfere"]
     with Workdir(PROP) as wd:
-        stages.model_check(chk, "Cuts", dict(NMax=nmax, Margin=margin, CheckMode="bounds", Emit=False), INVS,
+        stages.model_check(chk, "Cuts", dict(NMax=nmax, Margin=margin, CheckMode="bounds", DiffMode="exact", Emit=False), INVS,
                            wd=wd, label="A:box", coverage=(tier == "thorough"), expect_actions=("Check", "Kernel"))
-        cases = stages.emit_cases(chk, "Cuts", dict(NMax=nmax, Margin=margin, CheckMode="bounds"), wd=wd,
+        cases = stages.emit_cases(chk, "Cuts", dict(NMax=nmax, Margin=margin, CheckMode="bounds", DiffMode="exact"), wd=wd,
                                   label="B:accepted-sets", invariants=("EmitAll",))
         cases = [c for c in cases]
-        by_key = {(c["n"], c["kind"], c["ms"]): c["accepted"] for c in cases}
+        by_key = {(c["n"], c["kind"], c["ms"]): (c["accepted"], c["filler"]) for c in cases}
         jobs = []
         for si, (name, mk, kind, ms) in enumerate(scorers()):
             for n in range(3, nmax + 1):
                 if (n, kind, ms) not in by_key:
                     chk.machinery(f"no admitted set for n={n} kind={kind} ms={ms}")
                     continue
-                jobs.append((si, n, margin, by_key[(n, kind, ms)], chk.seed))
+                jobs.append((si, n, margin, by_key[(n, kind, ms)][0], list(by_key[(n, kind, ms)][1]), chk.seed))
         with ProcessPoolExecutor(max_workers=stages.NCPU) as ex:
             for job, (n_eval, n_acc, fails) in zip(jobs, ex.map(run_box, jobs)):
                 chk.evaluations += n_eval
@@ -183,7 +198,7 @@ def run(tier: str) -> int:
                                 "tuples": n_eval, "admitted": n_acc, "first_admitted": job[3][:3]})
                 for clause, obs in fails:
                     chk.violation({"stage": "B", "observed": obs, "seed": chk.seed, "margin": margin}, clause,
-                                  {"scorer": obs["scorer"], "clause": clause, "cut": obs.get("cut")})
+                                  {"scorer": obs["scorer"], "clause": clause, "cut": obs.get("cut"), "pos": obs.get("pos")})
         n_eval, fails = malformed(chk.seed)
         chk.evaluations += n_eval
         for clause, obs in fails:
